@@ -112,12 +112,6 @@ Proof.
 Qed.
 
 (* ---- abs of updated statements ---- *)
-Lemma abs_set_sl h s f v : abs h (set_sl s f v) = pset (abs h s) f (rdo h v).
-Proof.
-  unfold abs, pset, set_sl. cbn. f_equal.
-  (* functions: pointwise equal, we avoid extensionality by proving peq below instead *)
-Abort.
-
 Lemma abs_pl h s f : pl (abs h s) f = rdo h (sl s f).
 Proof. reflexivity. Qed.
 Lemma abs_pk h s : pk (abs h s) = sc s.
